@@ -100,6 +100,10 @@ def S7(kind: str) -> Spec:
     if kind == "same-deadline":
         tasks = [Task(f"t{i}", effort=P(f"e{i}"), alloc=["r"], scheduling="alap", end=FRI) for i in range(2)]
         return Spec(tasks, [Res("r")], length="2w")
+    if kind == "mixed":
+        # an ASAP task and an ALAP task meeting inside a slot of one resource
+        tasks = [Task("fwd", effort=P("e0"), alloc=["r"], prio=900), Task("bwd", effort=P("e1"), alloc=["r"], scheduling="alap", end=DAY0 + 3 * H, prio=100)]
+        return Spec(tasks, [Res("r")], length="2w")
     if kind == "chain":
         tasks = [Task("t0", effort=P("e0"), alloc=["r"]), Task("t1", effort=P("e1"), alloc=["r"], deps=[Dep("t0")], scheduling="alap", end=FRI)]
         return Spec(tasks, [Res("r")], length="2w")
@@ -180,7 +184,7 @@ def sched_cells(tier: str) -> dict[str, Callable[[], tuple[Spec, dict, Optional[
         if tier != "quick":
             add(f"S2x3[bands={a}{b}{c}]", lambda: S2(3), 60, 2 * H, pre)
     add("S2x2+1", lambda: S2(2, extra_indep=1), 60, int(1.5 * H))
-    if tier != "quick":
+    if True:
         # narrow bands (each effort within one slot-length band): small path trees that are exhausted
         b3 = [(60, H), (H + 1, 2 * H), (2 * H + 1, 3 * H)]
         for i, (alo, ahi) in enumerate(b3):
@@ -211,7 +215,7 @@ def sched_cells(tier: str) -> dict[str, Callable[[], tuple[Spec, dict, Optional[
     add("S4alt", lambda: S4(), 60, 3 * H)
     add("S5containers", lambda: S5(), 60, 2 * H)
     add("S5dated", lambda: S5(dated=True), 60, 2 * H)
-    for kind in ("same-deadline", "chain", "container", "project-end", "same-ids"):
+    for kind in ("same-deadline", "chain", "container", "project-end", "same-ids", "mixed"):
         add(f"S7[{kind}]", lambda kind=kind: S7(kind), 60, int(2.5 * H))
     add("S2cross", S2cross, 60, int(2.5 * H))
     add("S2cross[busy]", lambda: S2cross(True), 60, int(2.5 * H))
